@@ -107,6 +107,7 @@ func c14Run(r *core.Run, idx int, rng *rand.Rand) {
 	// the same data as many complete DEFLATE streams back to back, each one small (a decoder may stop after the first
 	// stream or read them all: either way what it materialises is bounded; acceptance is not judged for these)
 	variants = append(variants, variant{"comment/multi", "sso_query", true, false, false}, variant{"text/multi", "logout_form", true, false, false}, variant{"after_root/multi", "sso_form", true, false, false})
+	variants = append(variants, variant{"utf16", "logout_query", false, false, false}, variant{"utf16", "sso_form", false, false, false})
 	// verbose logging switched on at run time (what gets logged about a request must be bounded too); other methods
 	// than GET and POST on the same routes (the form parser reads the query for all of them, the body for PUT / PATCH)
 	variants = append(variants, variant{"comment", "sso_query", true, false, true}, variant{"text", "logout_form", true, false, true}, variant{"attribute/zlib", "sso_form", true, false, true})
@@ -118,7 +119,7 @@ func c14Run(r *core.Run, idx int, rng *rand.Rand) {
 			"logout_query/comment": true, "logout_query/text": true, "logout_form/attribute": true, "logout_form/after_root": true}
 		var v2 []variant
 		for _, v := range variants {
-			if keep[v.endpoint+"/"+v.place] || !v.valid || strings.Contains(v.place, "/") || v.keyFault || v.debugLog || strings.Contains(v.endpoint, ":") || v.place == "before_root" {
+			if keep[v.endpoint+"/"+v.place] || !v.valid || strings.Contains(v.place, "/") || v.keyFault || v.debugLog || strings.Contains(v.endpoint, ":") || v.place == "before_root" || v.place == "utf16" {
 				v2 = append(v2, v)
 			}
 		}
@@ -179,6 +180,9 @@ func c14Run(r *core.Run, idx int, rng *rand.Rand) {
 				prefix, suffix = doc[:at]+"<!--", "-->"+doc[at:]
 			case "garbage":
 				prefix, suffix, pad = "", "", 0
+			case "utf16":
+				// the inflated data starts with a UTF-16 byte order mark (what a decoder that converts encodings looks at)
+				prefix, suffix, pad = "\xff\xfe<\x00!\x00-\x00-\x00", "-\x00-\x00>\x00", 0
 			}
 			param := bombIn(container, prefix, suffix, pad, size)
 			var rq env.Req
